@@ -404,6 +404,10 @@ int register_mod_src(m_mod_t *mod, m_src_types type, const void *src_data,
         }
         return !ret ? 0 : -errno;
     }
+    /* Rejected: the descriptor still belongs to the caller (and to the source already registered on it) */
+    if (!(flags & M_SRC_DUP)) {
+        src->flags &= ~M_SRC_FD_AUTOCLOSE;
+    }
     m_mem_unref(src);
     return ret;
 }
